@@ -7,7 +7,7 @@ META = dict(
         guard="verif",
         enable="go build/test -tags verif (the driver ./check copies /repo's working tree, grafts /verif/harness in as internal/verifh and builds with -tags verif)",
         baseline_off_cmd="/verif/tools/baseline.py",
-        source_commits=['ee30edd', '14773b2', '3eaecf4', '5ba1df9'],
+        source_commits=['ee30edd', '14773b2', '3eaecf4', '5ba1df9', '73eb8c3'],
         add_only=True,
     ),
     engines=[
